@@ -43,8 +43,9 @@ def find_entries(entries, form, pos, normalizer=True, lemmatize=None, all_forms=
     seen = set()
     out = []
     for e in res:
-        if e['id'] not in seen:
-            seen.add(e['id'])
+        k = (e.get('_lex'), e['id'])
+        if k not in seen:
+            seen.add(k)
             out.append(e)
     return out
 
